@@ -35,7 +35,7 @@ class Ob:
                  unit_includes=(), remove=(), unwind=None, unwindset=(), restrict=(), flags=(),
                  timeout=300, mem_gb=6, kfs=(), kf_cover=True, tier='quick', note='', leak=False,
                  restrict_by=(), unwind_by=(), static_allow=None, kf_only=False, unwind_violation=False, statement='', bounds='', expect_covers=True, solver=None,
-                 object_bits=10, malloc_may_fail=False, native_libs=('-lz',), cost=None):
+                 object_bits=10, malloc_may_fail=False, native_libs=('-lz',), cost=None, fp_strict=False):
         self.name = name; self.harness = harness; self.units = list(units); self.models = list(models)
         self.defines = dict(defines or {}); self.unit_defines = dict(unit_defines or {})
         self.unit_includes = list(unit_includes); self.remove = list(remove)
@@ -46,6 +46,7 @@ class Ob:
         self.expect_covers = expect_covers; self.solver = solver; self.object_bits = object_bits
         self.malloc_may_fail = malloc_may_fail; self.native_libs = list(native_libs)
         self.cost = cost if cost is not None else timeout
+        self.fp_strict = fp_strict
 
 
 def sh(cmd, timeout=None, mem_gb=None, env=None, cwd=None):
@@ -136,7 +137,7 @@ def build_goto(ob, extra_defs):
     for u in ob.units:
         g = goto_compile(src_path(u), ob.unit_defines, ob.unit_includes)
         parts.append(remove_bodies(g, ob.remove))
-    key = hkey('link', parts, ob.restrict, ob.restrict_by)
+    key = hkey('link', parts, ob.restrict, ob.restrict_by, ob.fp_strict)
     out = os.path.join(scratch(), key + '.gb')
     def build():
         if os.path.exists(out): return out
@@ -148,7 +149,14 @@ def build_goto(ob, extra_defs):
         if ob.restrict_by:
             # name every function-pointer call site whose pointer expression matches a pattern and pin it to the
             # harness's targets (goto-instrument inserts an assertion that the pointer is one of them)
-            rc, o, e, _, _ = sh(['goto-instrument', '--restrict-function-pointer', '__verif_none__.function_pointer_call.1/harness', tmp, tmp + '.lab.gb'], timeout=300)
+            # fp_strict obligations: label every call site (a by-name restriction of a symbol that does not exist labels and writes
+            # the program) and pin the matching sites to the harness's targets. Obligations written before this was found use the
+            # old invocation, which goto-instrument rejects before writing anything: no site is pinned and CBMC's own
+            # type-based over-approximation of the targets stays in force (sound, only slower); their verdicts were obtained so.
+            if ob.fp_strict:
+                rc, o, e, _, _ = sh(['goto-instrument', '--restrict-function-pointer-by-name', '__verif_none__/harness', tmp, tmp + '.lab.gb'], timeout=300)
+            else:
+                rc, o, e, _, _ = sh(['goto-instrument', '--restrict-function-pointer', '__verif_none__.function_pointer_call.1/harness', tmp, tmp + '.lab.gb'], timeout=300)
             rc, o, e, _, _ = sh(['goto-instrument', '--show-goto-functions', tmp + '.lab.gb'], timeout=300)
             try: os.unlink(tmp + '.lab.gb')
             except OSError: pass
